@@ -83,6 +83,28 @@ EXTRA = [
   c = 1 if (2 if a else 0) > x else 0
   return (a, c)
 '''),
+    ('o:return_in_try_else', '''def f(x, n, b, xs):
+  a = 0
+  for e in xs:
+    try:
+      if e > x:
+        raise UErr(e)
+      a = a + 1
+    except UErr:
+      a = a + 10
+    else:
+      if a > n or b:
+        return (a, e)
+      a = a + 100
+  try:
+    a = a + 1
+  except UErr:
+    a = 0
+  else:
+    if x > 3:
+      return (a, -2)
+  return (a, -1)
+'''),
     ('o:while_in_lambda_caller', '''def f(x, n, b, xs):
   a = 0
   k = lambda u: u + 1 if u > x else u - 1
